@@ -181,7 +181,7 @@ Definition kexpart (p : phase) : list item :=
 (* events that cannot disturb an exchange: no reply path taken, or a handler that does not reply *)
 Definition quiet (e : ev) : bool :=
   match e with
-  | Recv p w => negb w || disc_eqb (disc_of p) NoReply || (p <? 50)
+  | Recv p w => negb w || disc_eqb (disc_of p) NoReply
   | KeepTick => false
   | _ => true
   end.
